@@ -223,6 +223,9 @@ def generate(rng, tier):
             else:
                 ex = isf = isd = False
             bits = "%s%d%d%d%d%d" % (which, ex, isf, isd, rng.random() < 0.5, rng.random() < (0.6 if which == "2" else 0.3))
+            if path == "/debug-info" or rng.random() < 0.2:
+                # the effective debug switch: attribute, or the request environment overriding it either way
+                bits = bits[:5] + rng.choice(["0", "1", "2", "3", "2", "3"])
             ops.append("q:%s:%s:%s" % (method, hx(path), bits))
         cases.append("C02 " + " ".join(ops))
     return cases
@@ -252,6 +255,9 @@ def to_model(case):
         p = tok.split(":")
         if p[0] == "q" and p[3][0] == "2":
             p[3] = "1" + p[3][1:]
+            tok = ":".join(p)
+        if p[0] == "q" and p[3][5] in "23":
+            p[3] = p[3][:5] + ("1" if p[3][5] == "2" else "0")      # what counts is the effective switch
             tok = ":".join(p)
         out.append(tok)
     return [" ".join(out)]
@@ -288,6 +294,8 @@ def ref_rule(rule, filters):
 def ref_dispatch(table, filters, method, path, bits):
     docroot, ex, isf, isd, index, debug = [c in "12" for c in bits]
     bit = BITS.get(method, 2)
+    if bits[5] == "3":
+        debug = False
     statics = {}
     for kind, key, fn, mask in table:
         if kind == "static":
